@@ -277,7 +277,11 @@ func TestReplay(t *testing.T) {
 	}
 	ws := newStats(rf.Property, 0)
 	defer ws.write()
-	res := RunScript(t, rf.Script, def.Oracles(), true)
+	ors := def.Oracles()
+	if os.Getenv("KAISIM_DEBUG_EVENTS") != "" {
+		ors = append(ors, &AccountingOracle{})
+	}
+	res := RunScript(t, rf.Script, ors, true)
 	ws.add(rf.Script, res)
 	for _, v := range res.Violations {
 		ws.ReplayClasses = append(ws.ReplayClasses, v.Class())
